@@ -446,10 +446,9 @@ func (in *labInst) settle(send func([]byte) error, min int) ([]labRx, error) {
 	var out []labRx
 	seen := false
 	nmsg := 0 // receptions that carry a message (connection-closed events do not count towards min)
-	deadline := time.Now().Add(20 * time.Second)
+	budget := newPatience(20 * time.Second) // running time: a frozen sandbox does not use it up
 	for !seen || nmsg < min {
-		left := time.Until(deadline)
-		if left <= 0 {
+		if budget.left <= 0 {
 			if !seen {
 				if d := in.binDead(); d != "" {
 					return out, labLost{d}
@@ -459,13 +458,12 @@ func (in *labInst) settle(send func([]byte) error, min int) ([]labRx, error) {
 			return out, nil
 		}
 		tw := time.Now()
-		if in.bin != nil && left > time.Second {
-			left = time.Second
+		if in.bin != nil {
 			if d := in.binDead(); d != "" {
 				return out, labLost{d}
 			}
 		}
-		r, ok := in.hub.waitOne(left)
+		r, ok, _ := patientRecvP(in.hub.rx, budget, time.Second)
 		V.ExtraAdd("settle_wait_us", time.Since(tw).Microseconds())
 		if !ok {
 			continue
